@@ -477,6 +477,48 @@ def rule_subclass_fields(ctx):
         ctx.holds('R9', 'no subclass constructor by-passes its base constructor')
 
 
+def rule_label_list_dispatch(ctx, rid='R7'):
+    """the `axes=[labels0, labels1, ...]` form (what from_json passes): recognised by the *type* of the elements, so that an empty label list
+    (a zero-length axis) is a label list too"""
+    fi = ctx.fn(AX + '_init_axes')
+    ev = run(ctx, fi, mode='fork', max_paths=20000)
+    AXES_P = P_('axes')
+    seen = 0
+    for p in ret_paths(ev):
+        if not any(alt[0] == 'call' and (T.dotted(alt[1]) or '') == 'Axes.from_arrays' for alt in T.strip_phi(p.value)):
+            continue
+        g = [(a, pol) for a, pol in p.guards if a[0] == 'call' and T.dotted(a[1]) in ('np.all', 'all') and pol is True]
+        if not g:
+            ctx.undecide(rid, '_init_axes: the guard of the from_arrays branch was not recognised')
+            return
+        a = g[-1][0]
+        comp = a[2][0] if a[2] else None
+        if comp is None or comp[0] != 'comp':
+            ctx.undecide(rid, '_init_axes: from_arrays guard is %s' % T.show(a)[:80])
+            return
+        seen += 1
+        elt = comp[2]
+        content = [x for x in T.subterms(elt) if x[0] == 'call' and T.call_name(x) in ('is_array1d_equiv', 'size', 'len', 'asarray', 'any', 'iterable')]
+        types = set()
+        for x in T.subterms(elt):
+            if x[0] == 'cmp' and x[1] == 'in' and x[3][0] in ('tuple', 'list'):
+                types |= set(T.dotted(y) for y in x[3][1])
+            if x[0] == 'call' and T.dotted(x[1]) == 'isinstance' and len(x[2]) == 2:
+                ty = x[2][1]
+                types |= set(T.dotted(y) for y in (ty[1] if ty[0] == 'tuple' else [ty]))
+        if content:
+            ctx.violated(rid, fi, 'label-list dispatch', 'the `axes=[labels, ...]` form is recognised with the content test %s: an empty label list (zero-length axis, as read back '
+                         'from JSON) is not "1-d array equivalent" and the constructor raises TypeError' % T.show(content[0])[:60], node=p.node)
+            return
+        if not {'list', 'np.ndarray'} <= types:
+            ctx.violated(rid, fi, 'label-list dispatch', 'the `axes=[labels, ...]` form must accept list and np.ndarray elements (found %s)' % sorted(t for t in types if t), node=p.node)
+            return
+    if seen:
+        ctx.holds(rid, '_init_axes: label lists recognised by element type (list / ndarray), empty lists included')
+    else:
+        ctx.violated(rid, fi, 'label-list dispatch', '_init_axes has no branch for axes given as a list of label sequences (Axes.from_arrays)')
+
+
 def rule_forms(ctx):
     ctx.rule('R7', 'constructor forms', 5)
     fi = ctx.fn(AX + '_init_axes')
@@ -503,6 +545,7 @@ def rule_forms(ctx):
             ok = False
     if ok:
         ctx.holds('R7', '_init_axes total: %s' % sorted(builders))
+    rule_label_list_dispatch(ctx, 'R7')
     # builders pair names with labels coherently
     f = ctx.fn(AX + 'Axes.from_arrays')
     ev = run(ctx, f, oracle=lambda a, st: False if a == T.mkcmp('is', P_('dims'), T.CONST_NONE) else None)
